@@ -26,7 +26,7 @@ ASSUMPTIONS = ['behaviour of *using* an unbound macro without finalizing is not 
 WITNESSES = ['use_before_definition', 'redefinition_wins', 'redefinition_in_later_file', 'per_use_reevaluation',
              'finalize_rejects_unbound', 'finalize_rejects_unevaluated', 'scope_like_macro_name',
              'constant_identity', 'constant_suffix_unique', 'constant_ambiguous_rejected', 'constant_duplicate_rejected',
-             'constant_invalid_rejected', 'special_syntax_same_macro']
+             'constant_invalid_rejected', 'special_syntax_same_macro', 'constant_identity_after_clear']
 
 MEM = {'c05_f2.gin': 'm = 20\n', 'c05_inc.gin': "m = 30\nc05.c.q = [%m, 'inc']\n"}
 GCALLS = []
@@ -330,6 +330,31 @@ def const_case(names, res):
       cfg._OPERATIVE_CONFIG.clear()
 
 
+def const_clear_case(names, res):
+  """Constants are the very objects also after clear_config() (which saves and restores them)."""
+  desc = ['const_clear', list(names)]
+  harness.hard_reset()
+  objs = {}
+  for i, n in enumerate(names):
+    objs[n] = [{'payload': n}, object()][i % 2] if i % 3 else ['list', n]
+    gin.constant(n, objs[n])
+  res.case(('const_clear', tuple(names)), True)
+  for rnd in range(2):
+    gin.clear_config()
+    for n in names:
+      try:
+        gin.parse_config('c05.c.p = %' + n)
+        got = [C()[0], gin.query_parameter(n)]
+      except Exception as e:  # pylint: disable=broad-except
+        got = ['raised %r' % (e,)]
+      if not all(g is objs[n] for g in got):
+        res.violation('constant_not_identical_after_clear', 'constants %r: after %d clear_config() call(s) %%%s yields %r, '
+                      'not the very object given to gin.constant' % (names, rnd + 1, n, got), desc)
+        return
+  res.w('constant_identity_after_clear')
+  res.outcome('const_clear')
+
+
 def invalid_const_case(name, res):
   harness.hard_reset()
   res.case(('invalid', name), True)
@@ -364,6 +389,8 @@ def _const_shard(args):
   if i == 0:
     for nm in INVALID_NAMES:
       invalid_const_case(nm, res)
+    for names in (['K'], ['q.K', 'r.K'], ['p.q.K', 'r.q.K', 'J'], ['K', 'p.J']):
+      const_clear_case(names, res)
   harness.hard_reset()
   return res
 
@@ -383,6 +410,11 @@ def replay(obj):
   if obj and obj[0] == 'const':
     res = core.Result()
     const_case(obj[1], res)
+    harness.hard_reset()
+    return res
+  if obj and obj[0] == 'const_clear':
+    res = core.Result()
+    const_clear_case(obj[1], res)
     harness.hard_reset()
     return res
   if obj and obj[0] == 'invalid':
